@@ -11,7 +11,8 @@ RULE = ("case = (declared curves d, data columns c, rows r, engine, wrapping lay
         "cell (i,j) carries its own coordinates (i+1)+(j+1)/1000 so any displacement is visible; the file is "
         "rendered from a FileSpec and the reading is compared cell by cell and item by item with the expected "
         "reading. The (d,c,r) grid d 0..6 x c 1..7 x r 1..5 x 2 engines and the wrapped grid are enumerated "
-        "exhaustively; larger shapes are generated. Non-trivial: d != c, or wrapped with c a multiple of the "
+        "exhaustively (with DLM COMMA/TAB also under mnemonic_case='lower'; noise = blank lines, '#' comments, indented "
+        "comments of many words); larger shapes are generated with mnemonic_case in {upper, lower, preserve}. Non-trivial: d != c, or wrapped with c a multiple of the "
         "per-line count, or r == 1, or c == 1, or a hyphen in every data line.")
 ASSUMPTIONS = [
     "every data line carries the same number of values (premise of the property); wrapped files declare exactly "
